@@ -161,6 +161,9 @@ pub fn kinds(ver: Ver, w: usize, level: u8) -> Vec<Kind> {
             }
             wills.push(dev!(format!("will.payload.len={l}"), move |a: &mut AP| if let AP::Connect { will, .. } = a { *will = Some(Will { topic: b"w".to_vec(), payload: s(l), qos: 0, retain: false, props: vec![] }) }));
         }
+        for (name, bytes) in [("ff", vec![0xFFu8]), ("c3-28", vec![0xC3, 0x28]), ("00", vec![0x00])] {
+            wills.push(dev!(format!("will.payload={name}"), move |a: &mut AP| if let AP::Connect { will, .. } = a { *will = Some(Will { topic: b"w".to_vec(), payload: bytes.clone(), qos: 0, retain: false, props: vec![] }) }));
+        }
         for n in special_names() {
             wills.push(dev!(format!("will.topic={n:?}"), move |a: &mut AP| if let AP::Connect { will, .. } = a { *will = Some(Will { topic: n.as_bytes().to_vec(), payload: b"x".to_vec(), qos: 1, retain: false, props: vec![] }) }));
         }
@@ -212,6 +215,11 @@ pub fn kinds(ver: Ver, w: usize, level: u8) -> Vec<Kind> {
         }
         for rl in rls {
             pls.push(dev!(format!("payload.len={}(remaining-length={rl})", rl - fixed), move |a: &mut AP| if let AP::Publish { payload, .. } = a { *payload = s(rl - fixed) }));
+        }
+        // payload *contents*: arbitrary binary data is legal whatever the other fields say (in particular next to a
+        // Payload Format Indicator of 1 - the specification lets a receiver validate it, not a codec)
+        for (name, bytes) in [("ff", vec![0xFFu8]), ("80", vec![0x80]), ("c3-28", vec![0xC3, 0x28]), ("00", vec![0x00]), ("e2-82(truncated)", vec![b'a', 0xE2, 0x82]), ("utf8", "\u{e9}\u{1F600}".as_bytes().to_vec())] {
+            pls.push(dev!(format!("payload={name}"), move |a: &mut AP| if let AP::Publish { payload, .. } = a { *payload = bytes.clone() }));
         }
         fields.push(pls);
         fields.push(pid_field(max));
